@@ -198,6 +198,42 @@ fn run_curve2(c: &mut Ctx) {
     c.check("Curve2::transformed_by", "closedness-kept", &class, a.is_closed() == b.is_closed(), || format!("{} vs {}", a.is_closed(), b.is_closed()));
     c.close("Curve2::length", "invariant", &class, b.length(), a.length(), 1e-12 * a.length() + 1e2 * U * (m.offset() + mb.offset()) * va.len() as f64);
 
+    // stations exactly on the vertices: point moves with T, direction (the average of the two edge
+    // directions) only rotates.  Vertices where the curve doubles back exactly are left out (the
+    // average is undefined there).
+    {
+        let (la, lb) = (a.lengths().clone(), b.lengths().clone());
+        for _ in 0..6 {
+            let i = c.rng.int(0, va.len() - 1);
+            let r = guard(|| (a.at_length(la[i]).map(|s| (s.point(), s.direction().into_inner(), s.index())), b.at_length(lb[i]).map(|s| (s.point(), s.direction().into_inner(), s.index()))));
+            c.evals(2);
+            let Ok((Some((p0, d0, i0)), Some((p1, d1, i1)))) = r else { continue };
+            // the station must be the vertex itself in both curves (equal lengths of consecutive
+            // vertices cannot occur: from_points removes duplicates)
+            if (p0 - va[i]).norm() > eps || (p1 - vb[i]).norm() > eps {
+                continue;
+            }
+            let _ = (i0, i1);
+            let prev = if i > 0 { Some(va[i] - va[i - 1]) } else if a.is_closed() { Some(va[va.len() - 1] - va[va.len() - 2]) } else { None };
+            let next = if i + 1 < va.len() { Some(va[i + 1] - va[i]) } else if a.is_closed() { Some(va[1] - va[0]) } else { None };
+            let fold = match (prev, next) {
+                (Some(u), Some(w)) => (u.normalize() + w.normalize()).norm() < 1e-3,
+                _ => false,
+            };
+            if fold {
+                c.skip("CurveStation2::direction :: at a vertex rotates with T");
+                continue;
+            }
+            let emin = prev.map(|v| v.norm()).unwrap_or(f64::INFINITY).min(next.map(|v| v.norm()).unwrap_or(f64::INFINITY));
+            let sharp = match (prev, next) {
+                (Some(u), Some(w)) => (u.normalize() + w.normalize()).norm(),
+                _ => 2.0,
+            };
+            let dtol = (1e-9 + 1e2 * U * (m.offset() + mb.offset()) / emin) * 4.0 / sharp;
+            c.close("CurveStation2::direction", "at a vertex rotates with T", &class, (d1 - t.rotation * d0).norm(), 0.0, dtol);
+        }
+    }
+
     for _ in 0..12 {
         let i = c.rng.int(0, va.len() - 2);
         let e = va[i + 1] - va[i];
@@ -471,6 +507,60 @@ fn run_mesh(c: &mut Ctx) {
             }
         } else {
             c.skip("Mesh::surf_closest_to :: equivariant point");
+        }
+    }
+    // ---- queries that take the motion as an argument: project_with_tol(p, .., Some(T)) must be
+    // project_with_tol(T p, .., None), and indices_in_tol likewise
+    {
+        let mut qs: Vec<Point3> = Vec::new();
+        let mut want: Vec<usize> = Vec::new();
+        let max_dist = ext * c.rng.log_range(1e-3, 1.0);
+        let max_angle = c.rng.range(0.1, 1.4);
+        let mut borderline = false;
+        for k in 0..8 {
+            let tr = raw.f[c.rng.int(0, nf - 1)];
+            let p = raw.v[tr[0] as usize] + (raw.v[tr[1] as usize] - raw.v[tr[0] as usize]) * c.rng.range(0.1, 0.6) + (raw.v[tr[2] as usize] - raw.v[tr[0] as usize]) * c.rng.range(0.1, 0.3);
+            let q_world = p + gen::unit3(&mut c.rng) * (max_dist * c.rng.log_range(0.05, 2.0));
+            let q_arg = t.inverse() * q_world; // so that T q_arg is the point that is really projected
+            let r = guard(|| (a.project_with_tol(&q_arg, max_dist, max_angle, Some(&t)).map(|x| (x.0.point, x.1)), a.project_with_tol(&(t * q_arg), max_dist, max_angle, None).map(|x| (x.0.point, x.1))));
+            c.evals(2);
+            let Ok((with_arg, direct)) = r else {
+                c.check("Mesh::project_with_tol", "no-panic", class, false, || "panic".into());
+                continue;
+            };
+            // borderline cases (distance or angle within 1e-6 of its limit) are not judged
+            let moved_q = t * q_arg;
+            let s = a.surf_closest_to(&moved_q);
+            let off = moved_q - s.point;
+            let ang = if off.norm() > 0.0 { s.normal.angle(&off) } else { 0.0 };
+            let near = (off.norm() - max_dist).abs() < 1e-6 * ext || (ang - max_angle).abs() < 1e-6 || ((std::f64::consts::PI - ang) - max_angle).abs() < 1e-6 || off.norm() < 1e-9 * ext;
+            if near {
+                borderline = true;
+                c.skip("Mesh::project_with_tol :: the motion passed as an argument equals moving the point first");
+            } else {
+                let same = match (&with_arg, &direct) {
+                    (Some(x), Some(y)) => (x.0 - y.0).norm() <= eps && x.1 == y.1,
+                    (None, None) => true,
+                    _ => false,
+                };
+                c.check("Mesh::project_with_tol", "the motion passed as an argument equals moving the point first", class, same, || format!("with Some(T): {:?}; on T p directly: {:?} (max_dist {max_dist:e}, max_angle {max_angle})", with_arg, direct));
+            }
+            qs.push(q_arg);
+            if direct.is_some() {
+                want.push(k);
+            }
+        }
+        if !borderline {
+            let r = guard(|| a.indices_in_tol(&qs, max_dist, max_angle, Some(&t)));
+            c.eval();
+            match r {
+                Ok(got) => {
+                    c.check("Mesh::indices_in_tol", "indices of exactly the points that project within the tolerances after the motion", class, got == want, || format!("got {:?}, expected {:?}", got, want));
+                }
+                Err(p) => {
+                    c.check("Mesh::indices_in_tol", "no-panic", class, false, || format!("{} {}", p.sig(), p.msg));
+                }
+            }
         }
     }
     if t != Iso3::identity() {
